@@ -473,6 +473,15 @@ class ProgGen:
             kt = str(k) if isinstance(k, int) and k >= 0 else (f"({k})" if isinstance(k, int) else f"({k.numerator}/{k.denominator})")
             xk = p if k == 1 else (f"abs({p})^{kt}" if not isinstance(k, int) else f"{p}^{kt}")
             body = f"({xk} * {cexpr.text})"
+            # the same function written with other operators: quotients with the parameter in the denominator,
+            # repeated factors, generic library calls (each shape exercises another inference path)
+            alt = {1: [f"({cexpr.text} * {p})", f"({p} / (1 / {cexpr.text}))", f"(2 * {p} * {cexpr.text} / 2)"],
+                   -1: [f"({cexpr.text} / {p})", f"(1 / {p} * {cexpr.text})", f"({cexpr.text} / (2 * {p}) * 2)", f"(1 / ({p} / {cexpr.text}))"],
+                   2: [f"({p} * {p} * {cexpr.text})", f"(sqr({p}) * {cexpr.text})", f"({p} / (1 / {p}) * {cexpr.text})"],
+                   3: [f"({p} * {p}^2 * {cexpr.text})", f"({p}^2 / (1 / {p}) * {cexpr.text})"],
+                   Fraction(1, 2): [f"(sqrt(abs({p})) * {cexpr.text})", f"({cexpr.text} * abs({p}) / sqrt(abs({p})))"]}.get(k)
+            if alt and rng.random() < 0.6:
+                body = rng.choice(alt)
             ret_ann = "D" if k == 1 else f"D^{kt}"
             if const:
                 ret_ann = f"{ret_ann} * {dim_type_text(const)}" if "/" not in dim_type_text(const) else f"{ret_ann} * ({dim_type_text(const)})"
